@@ -9,6 +9,21 @@ OWN_KINDS = ('PATH', 'NAME', 'LIT')
 # defects of the argument codec that also show up with string arguments are recorded under C12
 ORACLE_CLASS = {'bs-zero': 'c15-bs-zero', 'nulless-furibug': 'c15-nulless-furibug'}
 
+def eval_with_retry(prop, imports, case_type, cases, shard):
+    """coq_eval_cases, and a shard whose coqc died without a result (time limit on a loaded machine) is re-run alone in small pieces
+    before it counts (DESIGN section 7)"""
+    mism, errs = coq_eval_cases(prop, imports, case_type, cases, shard=shard)
+    failed = sorted(set(int(m.group(1)) for e in errs for m in [re.match(r'shard (\d+):', e)] if m))
+    if not failed:
+        return mism, errs
+    errs2 = [e for e in errs if not re.match(r'shard (\d+):', e)]
+    for k in failed:
+        idx = list(range(k * shard, min(len(cases), (k + 1) * shard)))
+        m2, e2 = coq_eval_cases(prop + 'retry', imports, case_type, [cases[i] for i in idx], shard=max(20, shard // 8))
+        mism += [idx[j] for j in m2]
+        errs2 += ['retry of shard %d: %s' % (k, x) for x in e2]
+    return sorted(set(mism)), errs2
+
 def run_harness(v, args, seed):
     rc, out = sh([harness_bin('c15')] + [str(a) for a in args], timeout=2400, env={'VERIF_SEED': str(seed)})
     lines = [l for l in out.splitlines() if '\t' in l]
@@ -66,7 +81,7 @@ def main(argv):
     unknown_oracle = [c for c in seen if c not in ORACLE_CLASS.values()]
 
     if v.corr_ok and cases:
-        mism, errs = coq_eval_cases(PROP, IMPORTS, 'c15case', cases, shard=200 if tier == 'quick' else 500)
+        mism, errs = eval_with_retry(PROP, IMPORTS, 'c15case', cases, 200 if tier == 'quick' else 300)
         v.obligation('correspondence: model = implementation on %d cases (vm_compute inside Coq)' % len(cases), not mism and not errs,
                      ('%d mismatches; ' % len(mism)) + '; '.join(errs)[:600] if (mism or errs) else '')
         for i in mism[:5]:
